@@ -361,6 +361,9 @@ class StmtMixin:
     def concrete_items(self, it: Val):
         if it.is_py:
             c = it.t
+            if isinstance(c, tuple) and c and isinstance(c[0], str) and c[0] in ("items", "values", "enumerate", "range") \
+                    and len(c) >= 2 and isinstance(c[1], Val):
+                return None
             if isinstance(c, dict):
                 return [self.lift(k) for k in c.keys()]
             if isinstance(c, (list, tuple)):
@@ -440,7 +443,7 @@ class StmtMixin:
                             if isinstance(x, ast.Name):
                                 names.add(x.id)
                             elif isinstance(x, ast.Attribute) and isinstance(x.ctx, ast.Store):
-                                fields.add(x.attr)
+                                fields.add((x.attr, x.value))
                             elif isinstance(x, ast.Subscript) and isinstance(x.ctx, ast.Store):
                                 self._mut_path(x.value, names, fields)
                 elif isinstance(node, ast.Call) and isinstance(node.func, ast.Attribute):
@@ -460,7 +463,7 @@ class StmtMixin:
                 names.add(node.id)
                 return
             if isinstance(node, ast.Attribute):
-                fields.add(node.attr)
+                fields.add((node.attr, node.value))
                 return
             if isinstance(node, ast.Subscript):
                 node = node.value
@@ -470,7 +473,10 @@ class StmtMixin:
                 continue
             return
 
+    _loop_assigned = frozenset()
+
     def havoc(self, s, names, fields, extra_fields=()):
+        self._loop_assigned = frozenset(names)
         for nm in names:
             v = s.env.get(nm)
             if v is None:
@@ -482,22 +488,48 @@ class StmtMixin:
                 s.env[nm] = self.fresh(self.reg.parse(ty), nm)
             else:
                 s.env[nm] = self.fresh(v.ty, nm)
-        for (cls, fld) in list(self.reg_fields_named(fields)) + list(extra_fields):
+        for (cls, fld, recv) in list(self.reg_fields_named(fields, s)) + [(c, f, None) for c, f in extra_fields]:
             fty = self.reg.parse(self.reg.fields[cls][fld])
-            s.heap[(cls, fld)] = z3.Const(fresh_name(f"heap_{cls}_{fld}"),
-                                          z3.ArraySort(self.reg.sort(self.reg.ty_of_class(cls)), self.reg.sort(fty)))
+            if recv is not None:
+                # the write goes through one known object: only its slot is havocked (frame kept for all others)
+                arr = self.heap_array(s, cls, fld)
+                s.heap[(cls, fld)] = z3.Store(arr, recv, z3.Const(fresh_name(f"hv_{cls}_{fld}"), self.reg.sort(fty)))
+            else:
+                s.heap[(cls, fld)] = z3.Const(fresh_name(f"heap_{cls}_{fld}"),
+                                              z3.ArraySort(self.reg.sort(self.reg.ty_of_class(cls)), self.reg.sort(fty)))
         for g in self.current_loop_ghost:
             old = s.ghost.get(g)
             if isinstance(old, Val) and not old.is_py:
                 s.ghost[g] = self.fresh(old.ty, "ghost_" + g)
 
-    def reg_fields_named(self, fields):
-        for cls, flds in self.reg.fields.items():
-            if self.reg.kind.get(cls) != "ref":
-                continue
-            for f in flds:
-                if f in fields:
-                    yield (cls, f)
+    def reg_fields_named(self, fields, s=None):
+        """fields: set of attribute names or (name, receiver AST).  The receiver's static class narrows the havoc."""
+        out = {}
+        for item in fields:
+            name, recv = item if isinstance(item, tuple) else (item, None)
+            owner, obj = None, None
+            if recv is not None and s is not None:
+                try:
+                    v = self.ev_pure(recv, s)
+                    if not v.is_py:
+                        t = v.ty.args[0] if v.ty.kind == "opt" else v.ty
+                        if t.kind == "ref":
+                            owner = t.name
+                            # only a loop-invariant receiver (a plain name not assigned in the loop) pins the object
+                            if isinstance(recv, ast.Name) and v.ty.kind == "ref" and recv.id not in self._loop_assigned:
+                                obj = v.t
+                except Exception:
+                    owner = None
+            for cls, flds in self.reg.fields.items():
+                if self.reg.kind.get(cls) != "ref" or name not in flds:
+                    continue
+                if owner is None or owner == cls:
+                    key = (cls, name)
+                    if key in out and (out[key] is None or obj is None or not out[key].eq(obj)):
+                        out[key] = None
+                    elif key not in out:
+                        out[key] = obj
+        return sorted(((c, f, o) for (c, f), o in out.items()), key=lambda x: (x[0], x[1]))
 
     def eval_inv(self, s, spec, extra):
         """Evaluate the loop invariant: parameters are looked up by name in `extra`, then in the environment."""
@@ -511,7 +543,7 @@ class StmtMixin:
                 amap[p] = self._loop_entry_env[p[4:]]
             else:
                 amap[p] = self.lookup(p, s)
-        return self.truth(self.eval_spec_fn(s, spec.inv, amap))
+        return self.truth(self.eval_spec_fn(s, spec.inv, amap, pre_state=self._loop_entry_state))
 
     def invariant_for(self, n, st, it, spec):
         ordn = self.loop_ordinal(n)
@@ -524,10 +556,15 @@ class StmtMixin:
         extra_fields = [tuple(f.split(".")) for f in spec.modifies]
         saved_entry = getattr(self, "_loop_entry_env", {})
         self._loop_entry_env = dict(st.env)
-        self._loop_entry_env["__heap__"] = dict(st.heap)
+        saved_entry_state = getattr(self, "_loop_entry_state", None)
+        self._loop_entry_state = st.copy()
         # the iterated collection as a sequence (index i) or set (done)
-        if it.is_py and isinstance(it.t, tuple) and it.t and it.t[0] in ("items", "values", "enumerate"):
-            raise Unsupported("loop contract over dict.items(): iterate via sorted()/keys in the model")
+        items_of = None
+        if it.is_py and isinstance(it.t, tuple) and it.t and it.t[0] == "items":
+            items_of = it.t[1]
+            it = Val(TSet(items_of.ty.args[0]), self.dict_dom(items_of))
+        elif it.is_py and isinstance(it.t, tuple) and it.t and it.t[0] in ("values", "enumerate"):
+            raise Unsupported("loop contract over dict.values()/enumerate")
         kind = it.ty.kind
         entry_ghost = {}
         if kind in ("seq", "str"):
@@ -547,6 +584,7 @@ class StmtMixin:
             body_st.assume(self.eval_inv(body_st, spec, extra_at(Val(INT, i))))
             x = self.seq_nth(it, i)
             self.assign_target(body_st, n.target, x)
+            body_st.env[f"_i{ordn}"] = Val(INT, i)
             exits = []
             for s2 in self.exec_block(n.body, body_st):
                 if s2.flow is None or s2.flow[0] == "continue":
@@ -568,6 +606,7 @@ class StmtMixin:
             else:
                 res.append(after)
             self._loop_entry_env = saved_entry
+            self._loop_entry_state = saved_entry_state
             return res + exits
         if kind in ("set", "dict"):
             setv = it if kind == "set" else Val(TSet(it.ty.args[0]), self.dict_dom(it))
@@ -585,7 +624,10 @@ class StmtMixin:
             x = self.fresh(et, "x")
             body_st.assume(z3.And(self.set_subset(done, setv), setv.t[x.t], z3.Not(done.t[x.t])), f"loop{ordn}:iter")
             body_st.assume(self.eval_inv(body_st, spec, extra_at(done)))
-            self.assign_target(body_st, n.target, x)
+            if items_of is not None:
+                self.assign_target(body_st, n.target, py((x, self.dict_get(items_of, x))))
+            else:
+                self.assign_target(body_st, n.target, x)
             exits = []
             done2 = self.set_add(done, x)
             for s2 in self.exec_block(n.body, body_st):
@@ -603,6 +645,7 @@ class StmtMixin:
             after.assume(self.eval_inv(after, spec, extra_at(setv)), f"loop{ordn}:exit")
             res = self.exec_block(n.orelse, after) if n.orelse else [after]
             self._loop_entry_env = saved_entry
+            self._loop_entry_state = saved_entry_state
             return res + exits
         raise Unsupported(f"loop over {it.ty}")
 
@@ -619,6 +662,7 @@ class StmtMixin:
         self.current_loop_ghost = list(spec.ghost)
         saved_entry = getattr(self, "_loop_entry_env", {})
         self._loop_entry_env = dict(st.env)
+        self._loop_entry_state = st.copy()
         self.emit(st, f"inv-init#{ordn}", self.eval_inv(st, spec, {}), note=f"while {ordn} invariant holds on entry")
         body_st = st.copy()
         self.havoc(body_st, names, fields)
